@@ -105,8 +105,8 @@ let parse_op toks : op option =
     Some (PA (nd sid, nd vrf, o s4, o s6, opt_tok item_of_tok spd, o o4, o o6, o od))
   | ["PI"; sid; a] -> Some (PI (nd sid, if a = "none" then None else Some (nd a)))
   | ["PT"; sid] -> Some (PT (nd sid))
-  | ["ID"; sid; vrf; s4; o4] -> Some (ID (false, nd sid, nd vrf, o s4, o o4))
-  | ["IQ"; sid; vrf; s4; o4] -> Some (ID (true, nd sid, nd vrf, o s4, o o4))
+  | ["ID"; sid; vrf; s4; o4] -> Some (ID (false, false, None, nd sid, nd vrf, o s4, o o4))
+  | ["IQ"; sid; vrf; s4; o4] -> Some (ID (true, true, None, nd sid, nd vrf, o s4, o o4))
   | ["IS"; sid; vrf; s6; spd; o6; od] -> Some (IS (nd sid, nd vrf, o s6, opt_tok item_of_tok spd, o o6, o od))
   | ["IR"; sid] -> Some (IR (nd sid))
   | ["IT"; sid] -> Some (IT (nd sid))
@@ -124,9 +124,9 @@ let split_segs_ref line = Str.split (Str.regexp_string " ; ") line
    handleSubscriberTerminate.  Declared subscriber k uses model session k+100*incarnation. *)
 type gate = { mutable exists : bool; mutable approved : bool; mutable inflight : bool; mutable created : bool;
               mutable pend_d : bool; mutable pend_q : bool; mutable inc : int; mutable queued : bool;
-              mutable args : (n * n option * n option) }
+              mutable args : (n * n option * n option); mutable rq : n option }
 let new_gate () = { exists = false; approved = false; inflight = false; created = false; pend_d = false;
-                    pend_q = false; inc = -1; queued = false; args = (N0, None, None) }
+                    pend_q = false; inc = -1; queued = false; args = (N0, None, None); rq = None }
 
 let parse_cfg_b toks =
   let pools = ref [] and groups = ref [] and sess = ref [] and queue = ref false in
@@ -171,9 +171,10 @@ let run_case_b variant line isegs =
   let res = ref ["init | " ^ snapb st0] in
   let idx = ref 1 in
   let cur_sid k g = n_of_int (int_of_string k + 100 * (max g.inc 0)) in
-  let idop k g isreq = let (vrf, s4, o4) = g.args in ID (isreq, cur_sid k g, vrf, s4, o4) in
+  let idop2 k g isreq bind = let (vrf, s4, o4) = g.args in ID (isreq, bind, (if isreq then g.rq else None), cur_sid k g, vrf, s4, o4) in
+  let idop k g isreq = idop2 k g isreq isreq in
   let fresh g = g.exists <- true; g.inc <- g.inc + 1; g.approved <- false; g.inflight <- false;
-    g.created <- false; g.pend_d <- false; g.pend_q <- false; g.queued <- false; g.args <- (N0, None, None) in
+    g.created <- false; g.pend_d <- false; g.pend_q <- false; g.queued <- false; g.args <- (N0, None, None); g.rq <- None in
   List.iter (fun otxt ->
     let f = tokens otxt in
     if f <> [] then begin
@@ -188,7 +189,7 @@ let run_case_b variant line isegs =
           let ops = List.concat_map (fun k -> let g = gate k in
               g.queued <- false; g.created <- true;
               let pd = g.pend_d and pq = g.pend_q in g.pend_d <- false; g.pend_q <- false;
-              (if pd then [(idop k g false, "offer")] else []) @ (if pq then [(idop k g (not variant.d6), "ack")] else [])) q in
+              (if pd then [(idop k g false, "offer")] else []) @ (if pq then [(idop2 k g true (not variant.d6), "ack")] else [])) q in
           Some ("bc", ops, -1, None)
         | ["BD"; k] ->
           let g = gate k in
@@ -201,6 +202,8 @@ let run_case_b variant line isegs =
           let g = gate k in
           if not g.exists then fresh g;
           g.pend_q <- true;
+          (* the REQUEST names the address the client was last told (option 50) *)
+          g.rq <- (match find_model_sess !st (cur_sid k g) with Some s -> s.s_told | None -> None);
           if g.approved then Some ("bq", [(idop k g true, "ack")], 0, Some (k, g))
           else if g.inflight then Some ("bq", [], 0, Some (k, g))
           else (g.inflight <- true; Some ("bq", [], 1, Some (k, g)))
@@ -210,7 +213,7 @@ let run_case_b variant line isegs =
             g.approved <- true; g.inflight <- false; g.args <- (nd vrf, opt_tok nd s4, opt_tok nd o4);
             let pd = g.pend_d and pq = g.pend_q in g.pend_d <- false; g.pend_q <- false;
             if not g.created && not g.queued then (if queue then (g.queued <- true; vq := !vq @ [k]) else g.created <- true);
-            Some ("ba", (if pd then [(idop k g false, "offer")] else []) @ (if pq then [(idop k g (not variant.d6), "ack")] else []), 0, Some (k, g))
+            Some ("ba", (if pd then [(idop k g false, "offer")] else []) @ (if pq then [(idop2 k g true (not variant.d6), "ack")] else []), 0, Some (k, g))
           end
         | ["BJ"; k] ->
           let g = gate k in
@@ -293,6 +296,11 @@ let () =
           (match parse_op toks with
            | None -> res := "badop" :: !res
            | Some o ->
+             let o = match o with
+               | ID (true, b, _, sid, vrf, s4, o4) ->
+                 let rq = match List.find_opt (fun s -> s.s_id = sid) !st.st_sess with Some s -> s.s_told | None -> None in
+                 ID (true, b, rq, sid, vrf, s4, o4)
+               | o -> o in
              let cands = step variant !st o in
              let want = if !k < Array.length isegs then Some isegs.(!k) else None in
              let pick = match want with
